@@ -645,9 +645,13 @@ def run(ctx):
     ctx.do(r12_9)
     from . import c11 as _c11
     ctx.do(_c11.r11_9)  # an upgraded row comes back paired with the messages it described
+    from . import c17 as _c17
+    ctx.do(_c17.r17_17)  # what CREATE made is in the table: the start-up scan finds nothing new
+    ctx.do(_c17.r17_16)
     from . import c13
     ctx.do(c13.r13_5)
     from . import c03 as _c03b
     ctx.do(_c03b.r3_6)  # what a shutdown commits is a pair of lists of equal length
+    ctx.do(_c03b.r3_5)  # the start-up pack keeps the flag table in step with the renumbered keys
     for k, v in PERSISTENT_FIELDS.items():
         ctx.trust(f"frozen persistent field: {k} - {v}")
